@@ -381,6 +381,23 @@ where
         vec.update_pointers()?;
         vec.validate_header()?;
 
+        // The header can only vouch for data the file actually contains: a file cut short
+        // (or a capacity field persisted before the file was extended) must be refused
+        let file_len = std::fs::metadata(&vec.file_path)
+            .map_err(|e| ZiporaError::io_error(&format!("Failed to get file size: {}", e)))?
+            .len();
+        let needed = (vec.capacity() as u64)
+            .checked_mul(std::mem::size_of::<T>() as u64)
+            .and_then(|data| data.checked_add(HEADER_SIZE as u64));
+        match needed {
+            Some(needed) if needed <= file_len => {}
+            _ => {
+                return Err(ZiporaError::invalid_data(
+                    "File is shorter than the capacity recorded in its header",
+                ));
+            }
+        }
+
         Ok(vec)
     }
 
